@@ -606,6 +606,8 @@ PROPS = {
             "C04_step_keeps_natives_simple", "C04_nested_run_contract", "C04_checked_run_no_abort", "C04_run_agrees",
             "C04_run_no_abort_unless_check", "C04_run_no_abort_flat_tables",
             "C04_checked_run_nested_ok", "C04_checked_run_cyclic_stops",
+            "C04_return_in_main_is_bad_return", "C04_return_one_frame_is_error",
+            "C04_foreach_counter_needs_well_scoped", "C04_foreach_counter_neighbours",
         ]},
         n_quick=200, n_thorough=2000,
         gen_timeout=3000,
